@@ -190,6 +190,10 @@ def check(pid, tier, seed):
             return "S op=%s v=%d" % (name, args[0])
         return "S op=Destroy"
 
+    # longer histories than TLC's step bound allows: random walks over the graph with the step counter dropped (lib/pathcover.py)
+    import random as _random
+    ncover = len(paths)
+    paths = list(paths) + [w for _, w in pathcover.random_walks(g, _random.Random("visitor-walk-%s" % seed), {"quick": 300, "thorough": 10000}[tier], 8, 30, drop=("steps",)) if w]
     for pi, path in enumerate(paths):
         lines.append("X v%d mode=visitor dir=%s" % (pi, scratch))
         lines += [vstep(ei) for ei in path]
